@@ -18,5 +18,6 @@ CONSTANTS
   Dev = {"RemoveOnNone"}
 INIT Init
 NEXT Next
+VIEW MCView
 INVARIANTS DispatchInvs
 CHECK_DEADLOCK FALSE
